@@ -62,6 +62,9 @@ func (r *rec) weightTable(id thor.Bytes32) map[string]any {
 		return nil
 	}
 	st := r.net.God.Stater.NewState(sum.Root())
+	if active, err := builtin.Staker.Native(st).IsPoSActive(); err != nil || !active {
+		return nil // still proof of authority at this checkpoint: votes are counted, not weighed
+	}
 	leaders, err := builtin.Staker.Native(st).LeaderGroup()
 	if err != nil {
 		return nil
@@ -250,6 +253,11 @@ func (c config) String() string {
 
 func newRec(c config, scen string, seed int64) *rec {
 	opt := sim.Options{Validators: c.validators, Nodes: c.nodes, PoS: c.pos, EpochLength: c.epoch, SkipLogs: true, RealRun: true, Finality: c.fin}
+	if scen == "transition" {
+		opt.NoGenesisStakers = true // the chain starts in PoA; validators queue by transaction
+		opt.HayabusaTP = 2 * c.epoch
+		opt.StakingPeriod = 4 * c.epoch
+	}
 	if scen == "posweights" || scen == "posforks" {
 		opt.StakingPeriod = 2 * c.epoch
 		opt.ExtraAccts = 1
@@ -268,7 +276,7 @@ func newRec(c config, scen string, seed int64) *rec {
 	w := map[string]any{}
 	total := uint64(0)
 	var thr uint64
-	if c.pos {
+	if c.pos && scen != "transition" { // the transition scenario starts under PoA: trace-wide facts are the PoA ones
 		st := net.God.Stater.NewState(net.God.Repo.BestBlockSummary().Root())
 		for i := 0; i < c.validators; i++ {
 			v, err := builtin.Staker.Native(st).GetValidation(net.Devs[i].Address)
@@ -704,6 +712,53 @@ func scenPosWeights(r *rec, blocks int) {
 	}
 }
 
+// scenTransition: the chain starts under proof of authority (no genesis stakers); in block 1 every validator queues
+// with a different stake; at the first transition block proof of stake takes over. Epochs in which only the two
+// heaviest validators sign alternate with epochs in which all four do: under PoA two of four signers never justify,
+// under PoS validators 0 and 1 hold more than 2/3 of the weight. The justifier must take the mode and the threshold of
+// each epoch from that epoch's own checkpoint state.
+func scenTransition(r *rec, blocks int) {
+	tag := r.net.God.Repo.ChainTag()
+	m, ok := builtin.Staker.ABI.MethodByName("addValidation")
+	if !ok {
+		panic("no addValidation")
+	}
+	unit, _ := new(big.Int).SetString("1000000000000000000000000", 10) // 1e6 VET in wei
+	stakes := []int64{150, 100, 25, 25}
+	period := thor.LowStakingPeriod()
+	var txs tx.Transactions
+	for i := 0; i < 4; i++ {
+		data, err := m.EncodeInput(r.net.Devs[i].Address, period)
+		must(err)
+		cl := tx.NewClause(&builtin.Staker.Address).WithData(data).WithValue(new(big.Int).Mul(unit, big.NewInt(stakes[i])))
+		t := tx.NewBuilder(tx.TypeLegacy).ChainTag(tag).BlockRef(tx.NewBlockRef(0)).Expiration(100).Gas(2_000_000).
+			Nonce(uint64(r.st.Seed) + 900 + uint64(i)).Clause(cl).Build()
+		txs = append(txs, tx.MustSign(t, r.net.Devs[i].PrivateKey))
+	}
+	n := len(r.net.Nodes)
+	E := int(r.net.Opt.EpochLength)
+	for k := 0; k < blocks; k++ {
+		h := int(r.net.Nodes[0].Repo.BestBlockSummary().Header.Number()) + 1
+		p := k % n
+		if e := h / E; e%2 == 1 || e == 2 {
+			p = k % 2 // only the two heaviest validators sign this epoch (incl. the first epoch under proof of stake)
+		}
+		if k == 0 {
+			r.net.Nodes[p].Pool.Txs = txs
+		}
+		blk := r.propose(p)
+		r.net.Nodes[p].Pool.Txs = nil
+		if blk == nil {
+			return
+		}
+		for i := range r.net.Nodes {
+			if i != p {
+				r.deliver(i, blk)
+			}
+		}
+	}
+}
+
 // scenPosForks: proof of stake with weight tables that DIFFER PER FORK. After a common block the network splits:
 // nodes 0 and 1 build fork A, whose first block carries a stake increase for validator 0; node 2 builds fork B with an
 // increase for validator 2; the Byzantine validator 3 signs on both forks. After the staking-period renewal the forks
@@ -1062,7 +1117,7 @@ func scenVoteLater(r *rec, _ int) {
 	}
 }
 
-var scenarios = []string{"sync", "async", "async-restart", "byz", "equivocate", "permute", "latesibling", "boundary", "posweights", "posforks", "doublevote", "stalefork", "stalepack", "shortbest", "votelater"}
+var scenarios = []string{"sync", "async", "async-restart", "byz", "equivocate", "permute", "latesibling", "boundary", "posweights", "posforks", "transition", "doublevote", "stalefork", "stalepack", "shortbest", "votelater"}
 
 func runOne(scen string, seed int64, blocks int) ([]trace.Ev, runStat) {
 	rng := rand.New(rand.NewSource(seed))
@@ -1097,6 +1152,8 @@ func runOne(scen string, seed int64, blocks int) ([]trace.Ev, runStat) {
 		c = config{4, 4, true, 3, 0}
 	case "posforks":
 		c = config{4, 3, true, 3, 0} // validator 3 is Byzantine
+	case "transition":
+		c = config{4, 4, true, 3, 0}
 	case "doublevote":
 		c = config{4, 2, pos, 4, 0}
 	case "stalefork":
@@ -1137,6 +1194,8 @@ func runOne(scen string, seed int64, blocks int) ([]trace.Ev, runStat) {
 		scenPosWeights(r, blocks)
 	case "posforks":
 		scenPosForks(r, blocks)
+	case "transition":
+		scenTransition(r, blocks)
 	case "doublevote":
 		scenDoubleVote(r, blocks)
 	case "stalefork":
